@@ -11,7 +11,9 @@ import sys
 
 PROP = "C09"
 RULE = ("operation sequences define / redefine / del / rebind / container put / drop / file reload / file delete / "
-        "unload over factory-created closures in one or two script files (global contexts; a family where both "
+        "unload over factory-created closures in one or two script files and in a Jupyter session context (created like "
+        "jupyter_kernel_start does, cells executed like the kernel does, ended by Kernel.session_shutdown() or "
+        "GlobalContextMgr.delete()) (global contexts; a family where both files "
         "compete for one @service name: second claim refused, then the owner is deleted / redefined / reloaded / its "
         "file deleted) carrying any mix of @state_trigger (1-2 decorators, names of one entity "
         "as value/.old/.attr and of several entities), @event_trigger, @service, @time_trigger(startup/shutdown); after "
@@ -31,7 +33,10 @@ TRUSTED = ["harness/run_C09.py (script generator, observation, reference-count o
 # commit a7dbc5e of /repo (`delContinuesNow`); 0 = the pre-fix loop (`return`, `delContinuesPreFix`, finding C09-F1).
 # The correspondence check certifies the value: against a pre-fix tree impl != model AND the oracle reports the leak.
 DEL_CONTINUES = 1
-FILES = {"t": "file.t", "u": "file.u"}     # two script files = two global contexts
+# two script files = two global contexts; "j" = a Jupyter kernel session (context `jupyter_0`), created the way the
+# `pyscript.jupyter_kernel_start` service creates it and ended by Kernel.session_shutdown() / GlobalContextMgr.delete()
+FILES = {"t": "file.t", "u": "file.u", "j": "jupyter_0"}
+SLOT_BASE = {"t": 0, "u": 10, "j": 20}
 SHARED = "shared"                           # the service name both contexts compete for (`pyscript.shared`)
 ENTS = ["pyscript.a", "pyscript.b", "pyscript.c"]
 EVS = ["ev1", "ev2"]
@@ -141,6 +146,43 @@ def gen_case_svc(rng, legacy, hashseed):
     return {"family": "svc", "legacy": legacy, "hashseed": hashseed, "ops": ops}
 
 
+def gen_case_jup(rng, legacy, hashseed):
+    """a Jupyter session: functions with triggers / services are defined by cells of the session, deleted, rebound, kept
+    in containers; the session ends (client shutdown -> session_shutdown, or the context is deleted directly) while
+    pyscript keeps running, or the integration is unloaded while the session still exists"""
+    ops = [{"op": "jstart", "file": "j"}]
+    gen = 0
+    if rng.random() < 0.4:
+        d = gen_define(rng, gen, False)
+        d["file"] = "t"
+        gen += 1
+        ops.append(d)
+    for i in range(rng.choice([2, 3, 4, 5])):
+        r = rng.random()
+        if i == 0 or r < 0.5:
+            d = gen_define(rng, gen, rng.random() < 0.3)
+            d["file"] = "j"
+            gen += 1
+            ops.append(d)
+        elif r < 0.65:
+            ops.append({"op": "del", "file": "j", "name": rng.choice(NAMES)})
+        elif r < 0.78:
+            a, b = rng.sample(NAMES, 2)
+            ops.append({"op": "rebind", "file": "j", "dst": a, "src": b})
+        elif r < 0.90:
+            ops.append({"op": "put", "file": "j", "slot": 0, "name": rng.choice(NAMES)})
+        else:
+            ops.append({"op": "drop", "file": "j", "slot": 0})
+    if rng.random() < 0.8:
+        ops.append({"op": "jend", "file": "j", "how": rng.choice(["shutdown", "shutdown", "delete"])})
+        if rng.random() < 0.4:
+            d = gen_define(rng, gen, False)
+            d["file"] = "t"
+            ops.append(d)
+    ops.append({"op": "unloadall"})
+    return {"family": "jup", "legacy": legacy, "hashseed": hashseed, "ops": ops}
+
+
 def D(name, gen, states=(), events=(), services=(), su=False, sd=False, file="t"):
     return {"op": "define", "file": file, "name": name, "gen": gen, "states": [list(s) for s in states],
             "events": list(events), "services": list(services), "su": su, "sd": sd}
@@ -175,6 +217,14 @@ def fixed_cases():
             D("f0", 0, services=[SHARED], file="t"), D("f0", 1, [["pyscript.b"]], services=[SHARED], file="u"),
             {"op": "reloadfile", "file": "u"}, D("f0", 2, services=[SHARED], file="u"),
             {"op": "deletefile", "file": "t"}, D("f0", 3, services=[SHARED], file="u"), {"op": "unloadall"}]})
+        # a Jupyter session with every kind of declaration ends while pyscript keeps running
+        for how in ("shutdown", "delete"):
+            out.append({"family": "fixed", "legacy": legacy, "hashseed": 0, "ops": [
+                {"op": "jstart", "file": "j"}, D("f1", 0, [["pyscript.c"]], file="t"),
+                D("f0", 1, [["pyscript.a", "pyscript.b"]], ["ev1"], ["s1"], su=True, sd=True, file="j"),
+                D("f1", 2, [], ["ev2"], [], file="j"), {"op": "put", "file": "j", "slot": 0, "name": "f1"},
+                {"op": "del", "file": "j", "name": "f1"}, {"op": "jend", "file": "j", "how": how},
+                D("f2", 3, [["pyscript.a"]], ["ev1"], file="t"), {"op": "unloadall"}]})
     return out
 
 
@@ -188,9 +238,11 @@ def gen_cases(rng, tier, search):
         for p in fixed_cases():
             cases.append(common.Case(p, None, tags=(p["family"], "legacy" if p["legacy"] else "new")))
     for i in range(n):
-        family = ["clean", "dup", "svc", "dup"][i % 4]
+        family = ["clean", "dup", "svc", "jup"][i % 4]
         if family == "svc":
             base = gen_case_svc(rng, True, HASHSEEDS[i % len(HASHSEEDS)])
+        elif family == "jup":
+            base = gen_case_jup(rng, True, HASHSEEDS[i % len(HASHSEEDS)])
         else:
             base = gen_case(rng, family, True, HASHSEEDS[i % len(HASHSEEDS)])
         for legacy in (True, False):      # "both subsystems": every generated sequence runs under both
@@ -202,7 +254,38 @@ def gen_cases(rng, tier, search):
 
 # --------------------------------------------------------------------------------------------- the generated script
 def files_used(payload):
-    return sorted({o.get("file", "t") for o in payload["ops"]} | {"t"})
+    """the script FILES of the case (the Jupyter session "j" is not a file)"""
+    return sorted(({o.get("file", "t") for o in payload["ops"]} | {"t"}) - {"j"})
+
+
+def cell_text(o):
+    """the cell a Jupyter client would send for operation `o` of the session"""
+    k = o["op"]
+    if k == "define":
+        lines = []
+        for names in o["states"]:
+            expr = " and ".join(f"{n} != 'never'" for n in names)
+            lines.append(f"@state_trigger(\"{expr}\")")
+        for ev in o["events"]:
+            lines.append(f"@event_trigger('{ev}')")
+        for sv in o["services"]:
+            lines.append(f"@service('pyscript.{sv}')")
+        tt = [x for x, flag in (("startup", o["su"]), ("shutdown", o["sd"])) if flag]
+        if tt:
+            lines.append(f"@time_trigger({', '.join(repr(x) for x in tt)})")
+        lines.append(f"def {o['name']}(**kw):")
+        lines.append(f"    rec('run', {o['gen']}, kw.get('trigger_type'), kw.get('trigger_time'), "
+                     "kw.get('var_name'), kw.get('event_type'), kw.get('probe'))")
+        return "\n".join(lines) + "\n"
+    if k == "del":
+        return f"del {o['name']}\n"
+    if k == "rebind":
+        return f"{o['dst']} = {o['src']}\n"
+    if k == "put":
+        return f"store[{o['slot']}] = {o['name']}\n"
+    if k == "drop":
+        return f"store.pop({o['slot']}, None)\n"
+    return "pass\n"
 
 
 def svc_names(payload):
@@ -291,6 +374,7 @@ def _run_one(payload):
         await env.settle(0.01)
         seen_q = set()
         keep = []
+        session = {}
         nreload = 0
         alive = True
         unloaded = False
@@ -302,7 +386,44 @@ def _run_one(payload):
             opsvc = "op_" + fl
             err = None
             try:
-                if k == "define":
+                if k == "jstart":
+                    # what the pyscript.jupyter_kernel_start service does, without the five TCP servers
+                    from custom_components.pyscript.global_ctx import GlobalContext, GlobalContextMgr
+                    from custom_components.pyscript.eval import AstEval
+                    from custom_components.pyscript.jupyter_kernel import Kernel
+                    import types
+                    jname = GlobalContextMgr.new_name("jupyter_")
+                    jctx = GlobalContext(jname, global_sym_table={"__name__": jname}, manager=GlobalContextMgr)
+                    jctx.set_auto_start(True)
+                    GlobalContextMgr.set(jname, jctx)
+                    jast = AstEval(jname, jctx)
+                    Function.install_ast_funcs(jast)
+                    kernel = Kernel({"key": "k3y", "signature_scheme": "hmac-sha256", "no_connect_timeout": 3000},
+                                    jast, jctx, jname)
+                    kernel.iopub_server = types.SimpleNamespace(close=lambda: None)   # "the session is up"
+                    session.update(name=jname, ast=jast, kernel=kernel)
+                    jast.parse("store = {}\n")
+                    await jast.eval()
+                elif fl == "j" and k in ("define", "del", "rebind", "put", "drop"):
+                    # a cell executed the way Kernel.shell_handler executes an execute_request
+                    jg = session["kernel"].global_ctx
+                    jg.set_auto_start(False)
+                    try:
+                        session["ast"].parse(cell_text(o))
+                        await session["ast"].eval()
+                        await Function.waiter_sync()
+                        jg.set_auto_start(True)
+                        jg.start()
+                    except Exception:  # pylint: disable=broad-except
+                        pass   # the kernel reports the error to the client and carries on
+                elif k == "jend":
+                    if o.get("how") == "delete":
+                        from custom_components.pyscript.global_ctx import GlobalContextMgr
+                        GlobalContextMgr.delete(session["name"])
+                    else:
+                        await session["kernel"].session_shutdown()
+                    session.pop("ast", None)
+                elif k == "define":
                     await env.call("pyscript", opsvc, {"what": "define", "k": o["gen"], "name": o["name"]})
                 elif k == "del":
                     await env.call("pyscript", opsvc, {"what": "del", "name": o["name"]})
@@ -458,8 +579,12 @@ def model_ops(payload):
             break
         k = o["op"]
         ctx = FILES[o.get("file", "t")]
-        slot_base = 10 if o.get("file", "t") == "u" else 0
-        if k == "define":
+        slot_base = SLOT_BASE[o.get("file", "t")]
+        if k == "jstart":
+            ops.append(["drop", 99])        # creating the (empty) session context changes nothing the model tracks
+        elif k == "jend":
+            ops.append(["unloadctx", ctx])
+        elif k == "define":
             orders = obs[idx].get("orders", []) if isinstance(obs[idx], dict) else []
             # both subsystems keep one queue per @state_trigger (legacy: one TrigInfo per decorator round)
             states = [[var_sx(n) for n in order_for(s, orders)] for s in o["states"]]
@@ -563,7 +688,7 @@ def oracle(payload):
                 slots[f][o["slot"]] = binds[f][o["name"]]
         elif k == "drop":
             slots[f].pop(o["slot"], None)
-        elif k in ("reloadfile", "deletefile"):
+        elif k in ("reloadfile", "deletefile", "jend"):
             binds[f].clear()
             slots[f].clear()
         elif k == "unloadall":
